@@ -49,6 +49,14 @@ static inline std::string mem_out(size_t (*w)(FILE*, const Args&), const Args& a
 #define RI(x) r.iv.push_back((long long)(x))
 #define CAP(z, l) zsmall(z, l)
 
+// bodies of the mpn-level operations (kept out of the OPZ macro: their declarations contain top-level commas)
+static inline void body_mpn_mul_via_limbs(Args& a, Res& r) { (void)r; mpz_srcptr u = zl(Z1) >= zl(Z2) ? Z1 : Z2; mpz_srcptr v = u == Z1 ? Z2 : Z1; size_t un = zl(u), vn = zl(v); mp_limb_t* rp = mpz_limbs_write(Z0, (mp_size_t)(un + vn)); mpn_mul(rp, mpz_limbs_read(u), (mp_size_t)un, mpz_limbs_read(v), (mp_size_t)vn); mpz_limbs_finish(Z0, (mp_size_t)(un + vn)); }
+static inline void body_mpn_sqr_via_limbs(Args& a, Res& r) { (void)r; size_t n = zl(Z1); mp_limb_t* rp = mpz_limbs_write(Z0, (mp_size_t)(2 * n)); mpn_sqr(rp, mpz_limbs_read(Z1), (mp_size_t)n); mpz_limbs_finish(Z0, (mp_size_t)(2 * n)); }
+static inline void body_mpn_tdiv_qr_via_limbs(Args& a, Res& r) { (void)r; size_t nn = zl(Z2), dn = zl(Z3); mp_limb_t* qp = mpz_limbs_write(Z0, (mp_size_t)(nn - dn + 1)); mp_limb_t* rp = mpz_limbs_write(Z1, (mp_size_t)dn); mpn_tdiv_qr(qp, rp, 0, mpz_limbs_read(Z2), (mp_size_t)nn, mpz_limbs_read(Z3), (mp_size_t)dn); mpz_limbs_finish(Z0, (mp_size_t)(nn - dn + 1)); mpz_limbs_finish(Z1, (mp_size_t)dn); }
+static inline void body_mpn_sqrtrem_via_limbs(Args& a, Res& r) { (void)r; size_t n = zl(Z2); mp_limb_t* sp = mpz_limbs_write(Z0, (mp_size_t)((n + 1) / 2)); mp_limb_t* rp = mpz_limbs_write(Z1, (mp_size_t)n); mp_size_t rn = mpn_sqrtrem(sp, rp, mpz_limbs_read(Z2), (mp_size_t)n); mpz_limbs_finish(Z0, (mp_size_t)((n + 1) / 2)); mpz_limbs_finish(Z1, rn); }
+static inline void body_mpn_get_set_str_via_limbs(Args& a, Res& r) { (void)r; size_t n = zl(Z1); int b = 2 + (int)((unsigned)a.base % 255); std::vector<mp_limb_t> cp(mpz_limbs_read(Z1), mpz_limbs_read(Z1) + n); cp.push_back(0); std::vector<unsigned char> d(mpz_sizeinbase(Z1, b <= 62 ? b : 62) * 2 + 70); size_t nd = mpn_get_str(d.data(), b, cp.data(), (mp_size_t)n); RI(nd); size_t k0 = 0; while (k0 + 1 < nd && d[k0] == 0) k0++;
+    mp_limb_t* rp = mpz_limbs_write(Z0, (mp_size_t)(n + 2)); mp_size_t rn = mpn_set_str(rp, d.data() + k0, nd - k0, b); mpz_limbs_finish(Z0, rn); }
+static inline void body_mpn_divrem_1_mod_1(Args& a, Res& r) { (void)r; size_t n = zl(Z1); mp_limb_t dv = U0 | 1; mp_limb_t* qp = mpz_limbs_write(Z0, (mp_size_t)n); mp_limb_t r1 = mpn_divrem_1(qp, 0, mpz_limbs_read(Z1), (mp_size_t)n, dv); mp_limb_t r2 = mpn_mod_1(mpz_limbs_read(Z1), (mp_size_t)n, dv); mpz_limbs_finish(Z0, (mp_size_t)n); RI(r1); RI(r1 == r2); }
 static const Op OPS[] = {
   // ---- mpz arithmetic ------------------------------------------------------------------------------------
   OPZ(mpz_add, "Z=ZZ", true, mpz_add(Z0, Z1, Z2), 0), OPZ(mpz_sub, "Z=ZZ", true, mpz_sub(Z0, Z1, Z2), 0),
@@ -167,6 +175,13 @@ static const Op OPS[] = {
   OPZ(mpz_init_set_str, "Z=", true, { mpz_clear(Z0); RI(mpz_init_set_str(Z0, a.str.c_str(), a.base % 63 == 1 ? 0 : (int)((unsigned)a.base % 63))); }, 0),
   OPZ(mpz_inits_clears, "ZZ=", a.z[0] != a.z[1], { mpz_clears(Z0, Z1, (mpz_ptr)0); mpz_inits(Z0, Z1, (mpz_ptr)0); mpz_set_ui(Z1, U0); }, 0),
   OPZ(mpq_inits_clears, "Q=", true, { mpq_clears(Q0, (mpq_ptr)0); mpq_inits(Q0, (mpq_ptr)0); mpq_set_si(Q0, S0 % 1000, 1 + U0 % 1000); mpq_canonicalize(Q0); }, 0),
+  // mpn entry points on the limbs of mpz operands (results stored back through the documented mpz_limbs_write / finish interface)
+  OPZ(mpn_mul_via_limbs, "Z=ZZ", znz(Z1) && znz(Z2) && a.z[0] != a.z[1] && a.z[0] != a.z[2], body_mpn_mul_via_limbs(a, r), 0),
+  OPZ(mpn_sqr_via_limbs, "Z=Z", znz(Z1) && a.z[0] != a.z[1], body_mpn_sqr_via_limbs(a, r), 0),
+  OPZ(mpn_tdiv_qr_via_limbs, "ZZ=ZZ", znz(Z2) && znz(Z3) && zl(Z2) >= zl(Z3) && a.z[0] != a.z[2] && a.z[0] != a.z[3] && a.z[1] != a.z[2] && a.z[1] != a.z[3], body_mpn_tdiv_qr_via_limbs(a, r), 0),
+  OPZ(mpn_sqrtrem_via_limbs, "ZZ=Z", znz(Z2) && a.z[0] != a.z[2] && a.z[1] != a.z[2], body_mpn_sqrtrem_via_limbs(a, r), 0),
+  OPZ(mpn_get_set_str_via_limbs, "Z=Z", znz(Z1) && a.z[0] != a.z[1], body_mpn_get_set_str_via_limbs(a, r), 0),
+  OPZ(mpn_divrem_1_mod_1, "Z=Z", znz(Z1) && a.z[0] != a.z[1], body_mpn_divrem_1_mod_1(a, r), 0),
   OPZ(gmp_asprintf_width, "=Z", true, { int w = asprintf_width(a); char* p = nullptr; int n = gmp_asprintf(&p, (a.base & 2) ? "%-*Zd" : "%*Zx", w, Z0); RI(n); r.sv.push_back(take_str(p)); }, F_STDIO),
   OPZ(mpf_rrandomb, "F=R", true, mpf_rrandomb(F0, a.r, (mp_size_t)(a.s[0] % 9), (mp_exp_t)(a.u[2] % 50)), F_RAND),
 };
